@@ -5,6 +5,7 @@ import (
 	"sort"
 	"strings"
 	"syscall"
+	"time"
 	"unsafe"
 
 	"github.com/criyle/go-sandbox/pkg/seccomp"
@@ -76,7 +77,7 @@ func programVerdict(s runner.Status) bool {
 func runC15(res *Result, d *Driver, tier string, seed uint64) {
 	res.Rule = "part A: real Context.GetString on this process' own memory (regions with PROT_NONE holes; strings at end-of-page±2, unterminated 4095/4096/4097/8192 bytes, NUL at 0, unmapped/odd addresses) vs Model.GetString.getString; " +
 		"part A': real clen/hasNull on random buffers vs the Go-lite evaluation of the regenerated functions and the hand model; " +
-		"part B: hostile probe scripts under the real ptrace runner with a file-tracing filter (garbage pointers, 64-bit garbage in int args, unknown/x32/negative syscall numbers, unreadable open_how, threads racing exit_group): verdict must be about the program, never Runner Error. " +
+		"part B: hostile probe scripts under the real ptrace runner with a file-tracing filter (garbage pointers, 64-bit garbage in int args, unknown/x32/negative syscall numbers, unreadable open_how, threads racing exit_group; the main process ending while forked children still run — the run must return within 15 s): verdict must be about the program, never Runner Error. " +
 		"non-trivial = not the plain NUL-terminated in-page case; distinct = distinct (layout,address) / buffer / script."
 	rng := NewRng(seed, "C15", 1)
 	pg := ptracer.VerifPageSize()
@@ -298,6 +299,42 @@ func runC15(res *Result, d *Driver, tier string, seed uint64) {
 		if r.Status != runner.StatusNormal {
 			res.Mismatch(Mismatch{Kind: "oracle", What: "threads racing exit_group(0): a legal program that exits 0 must be Normal (C15_vanished_tracee)", Input: script,
 				Impl: fmt.Sprintf("status=%v exit=%d error=%q", r.Status, r.ExitStatus, r.Error), Oracle: "violates"})
+		}
+	}
+	// other processes of the program still alive when the verdict is decided: the tracer must finish the run
+	lingering := []string{
+		"fork;sleep 30000;endfork;sleep 20;exit 0",
+		"fork;ignore 15;spin 30000;endfork;sys 2 s:/etc/passwd 0;sleep 20;exit 3",
+		"fork;fork;sleep 30000;endfork;sleep 30000;endfork;sleep 20;raise 11",
+		"fork;sleep 30000;endfork;fork;spin 30000;endfork;sleep 20;sys 2 bad 0;exit 0",
+	}
+	nl := 1
+	if tier == "thorough" {
+		nl = 25
+	}
+	for rep := 0; rep < nl; rep++ {
+		for _, script := range lingering {
+			var pid int
+			ch := make(chan runner.Result, 1)
+			go func() {
+				r, _ := runPtraceProbe(RunSpec{Script: script, Filter: tracingFilter(), Timeout: 60 * time.Second, SyncFunc: func(p int) error { pid = p; return nil }})
+				ch <- r
+			}()
+			res.Case("linger:"+script+itoa(rep), true, "lingering-children")
+			res.Traces++
+			select {
+			case r := <-ch:
+				if !programVerdict(r.Status) || r.Status == runner.StatusTimeLimitExceeded {
+					res.Mismatch(Mismatch{Kind: "oracle", What: "main process ends while other processes of the program live: verdict about the program (C15)", Input: script,
+						Impl: fmt.Sprintf("status=%v exit=%d error=%q", r.Status, r.ExitStatus, r.Error), Oracle: "violates"})
+				}
+			case <-time.After(15 * time.Second):
+				res.Mismatch(Mismatch{Kind: "oracle", What: "the tracer never stops making progress: the run must end once the verdict is decided (C15)", Input: script,
+					Impl: "Run did not return within 15 s although the main process ended after 20 ms (children of the program were still alive)", Oracle: "violates"})
+				if pid > 0 {
+					syscall.Kill(-pid, syscall.SIGKILL)
+				}
+			}
 		}
 	}
 	res.Sample("hostile: " + scripts[0])
